@@ -15,8 +15,21 @@ list is its length followed by its items. Unknown / malformed command → `bad-o
   <fri>  = commitCaps[] powWitnesses nQueries { nBatches { rows[] }* steps[] }* finalPolyLen
   <uni shape> = traceCap quotientCap randomCap? traceLocal traceNext prepLocal? prepNext?
            quotientChunks[] random? degreeBits <fri>
+
+  batch <base> <tag> <env> <airs> <p3> <batch shape>   (model `verifyBatch` / `verifyP3Batch`)
+  <tag>   = a number that only takes part in the same/different comparison (content hash of what the
+            shape vector abstracts from: the lookup contexts and the AIRs' constraints)
+  <airs>  = n { width opensNext(0|1) declares?(-|0|1) logQd? }*
+  <p3>    = 0 | 1 traceD numProvers airsBuild(0|1) npoEntriesOk(0|1) extDegree rows[] publicLanes
+            aluLanes npoLanes[] minTraceHeight hornerSteps nonPrimLanes[]
+  <batch shape> = traceCap quotientCap randomCap? permCap?
+            nInst { traceLocal traceNext prepLocal? prepNext? quotientChunks[] random? permLocal permNext }*
+            degreeBits[] terminals[](0|1) publicValues lookups[]
+            ( 0 | 1 cap nMeta { 0 | 1 matrixIndex width degreeBits }* matrixToInstance[] ) <fri>
+  The table metadata of <p3> does not take part in the same/different comparison (the AIRs rebuilt
+  from it do, through <airs> and <tag>).
 -/
-import P3R.Model.Shape
+import P3R.Model.BatchShape
 
 open P3R.Shape
 
@@ -78,17 +91,66 @@ def uni : P UniShape := do
   pure { traceCap, quotientCap, randomCap, traceLocal, traceNext, prepLocal, prepNext,
          quotientChunks, random, degreeBits, fri := f }
 
+def optOf {α} (p : P α) : P (Option α) := do
+  let n ← nat
+  if n == 0 then pure none else do let a ← p; pure (some a)
+
+def airFacts : P AirFacts := do
+  let width ← nat; let opensNext ← bool; let d ← opt; let logQd ← opt
+  pure { width, opensNext, declares := d.map (· != 0), logQd }
+
+def instShape : P InstShape := do
+  let traceLocal ← nat; let traceNext ← nat; let prepLocal ← opt; let prepNext ← opt
+  let quotientChunks ← list nat; let random ← opt; let permLocal ← nat; let permNext ← nat
+  pure { traceLocal, traceNext, prepLocal, prepNext, quotientChunks, random, permLocal, permNext }
+
+def prepMeta : P PrepMeta := do
+  let matrixIndex ← nat; let width ← nat; let degreeBits ← nat
+  pure { matrixIndex, width, degreeBits }
+
+def prepShape : P PrepShape := do
+  let cap ← nat; let instances ← list (optOf prepMeta); let matrixToInstance ← list nat
+  pure { cap, instances, matrixToInstance }
+
+def p3 : P (P3Env × MetaShape) := do
+  let traceD ← nat; let numProvers ← nat; let airsBuild ← bool; let npoEntriesOk ← bool
+  let extDegree ← nat; let rows ← list nat; let publicLanes ← nat; let aluLanes ← nat
+  let npoLanes ← list nat; let minTraceHeight ← nat; let hornerSteps ← nat; let nonPrimLanes ← list nat
+  pure ({ traceD, numProvers, airsBuild, npoEntriesOk },
+        { extDegree, rows, publicLanes, aluLanes, npoLanes, minTraceHeight, hornerSteps, nonPrimLanes })
+
+def batch : P BatchShape := do
+  let traceCap ← nat; let quotientCap ← nat; let randomCap ← opt; let permCap ← opt
+  let instances ← list instShape
+  let degreeBits ← list nat; let terminals ← list bool; let publicValues ← nat; let lookups ← list nat
+  let prep ← optOf prepShape
+  let f ← fri
+  pure { traceCap, quotientCap, randomCap, permCap, instances, degreeBits, terminals, publicValues,
+         lookups, prep, fri := f }
+
 inductive Input
   | uni (e : Env) (s : UniShape)
-  deriving DecidableEq
+  | batch (tag : Nat) (e : BatchEnv) (p : Option (P3Env × MetaShape)) (s : BatchShape)
+
+def Input.same : Input → Input → Bool
+  | .uni e s, .uni e' s' => e == e' && s == s'
+  | .batch t e p s, .batch t' e' p' s' => t == t' && e == e' && p.map (·.1) == p'.map (·.1) && s == s'
+  | _, _ => false
 
 def Input.verify : Input → Out
   | .uni e s => verifyUni e s
+  | .batch _ e none s => verifyBatch e s
+  | .batch _ e (some (p, m)) s => verifyP3Batch p e m s
 
 def parseLine (ts : List String) : Option (String × Input) :=
   match ts with
   | "uni" :: base :: rest =>
     match (do let e ← env; let s ← uni; pure (Input.uni e s)).run rest with
+    | some (i, []) => some (base, i)
+    | _ => none
+  | "batch" :: base :: rest =>
+    match (do let t ← nat; let b ← env; let airs ← list airFacts; let p ← optOf p3; let s ← batch
+              pure (Input.batch t { base := b, airs } p s)).run rest with
     | some (i, []) => some (base, i)
     | _ => none
   | _ => none
@@ -103,7 +165,7 @@ def step (honest : List (String × Input)) (line : String) : List (String × Inp
     let out := match i.verify with
       | .err => "err"
       | .panic => "panic"
-      | .ok => if i = h then "ok same" else "ok different"
+      | .ok => if i.same h then "ok same" else "ok different"
     (honest, out)
 
 partial def loop (h : IO.FS.Stream) (out : IO.FS.Stream) (honest : List (String × Input)) : IO Unit := do
